@@ -342,7 +342,9 @@ func (blockchain *Blockchain) BeginBlock(req abciTypes.RequestBeginBlock) abciTy
 
 		// skip already offline candidates to prevent double punishing
 		candidate := blockchain.stateDeliver.Candidates.GetCandidateByTendermintAddress(address)
-		if candidate == nil || candidate.Status == candidates.CandidateStatusOffline || blockchain.stateDeliver.Validators.GetByTmAddress(address) == nil {
+		validator := blockchain.stateDeliver.Validators.GetByTmAddress(address)
+		// a validator already punished in this block (second evidence entry against it) is marked to drop
+		if candidate == nil || candidate.Status == candidates.CandidateStatusOffline || validator == nil || validator.IsToDrop() {
 			continue
 		}
 
